@@ -114,7 +114,7 @@ def streams(tier, rng):
     n = 6000 if tier == 'quick' else 150000
     for fl in FLAVORS:
         cases = [make(rng) for _ in range(n if fl == 'default' else n // 3)]
-        yield {'name': 'streams-' + fl, 'flavor': fl, 'cases': cases, 'model': fl in ('default',), 'project': project,
+        yield {'name': 'streams-' + fl, 'coqcheck': fl == 'default', 'flavor': fl, 'cases': cases, 'model': fl in ('default',), 'project': project,
                'nontrivial': lambda c, o: c if (' H' in o or ' E-1' in o or ' E-2' in o) else None}
     # the formatting helpers a handler may call on what it decoded (exact-size buffers; judged by the sanitizer only)
     from props import C15
